@@ -134,7 +134,10 @@ class Describer:
                     raise
                 except Exception:
                     out[f] = {"unknown": True}
-            return {"rec": v.model.name, "fields": out}
+            d = {"rec": v.model.name, "fields": out}
+            if getattr(v, "ref", None) is not None and depth == 0:
+                d["id"] = self.key(v.ref, "v")      # the object's identity in the universe (it may occur inside containers)
+            return d
         if isinstance(v, VFunc):
             return {"func": v.name}
         raise CannotConcretize("value %r" % (v,))
